@@ -346,6 +346,116 @@ def decimal_range(ctx, config, w):
     return stats
 
 
+def decimal_range_like(ctx, config, w):
+    """Like-quantity operations (convert, ==, partial_cmp, +, -, /) of every
+    reference-unit type and every ordered unit pair whose scale ratio is in
+    range: every arithmetic node stays representable."""
+    from . import magn, spec as S
+    U_ = w.U
+    a_, b_ = S.P(0, "self"), S.P(1, "rhs")
+    stats = {"types": 0, "pairs": 0, "nodes": 0, "vacuous": 0}
+    am_a = T.canon(S.amount(a_))
+    ua = T.canon(S.unit(a_))
+    sa_t = T.canon(S.scale(ua))
+    fns = []
+    for fn, second, kind in (("convert", "unit", "unit"), ("eq", "qty", "cmp"), ("partial_cmp", "qty", "cmp"), ("add", "qty", "sum"), ("sub", "qty", "sum"), ("div", "qty", "ratio")):
+        try:
+            outs, body, _ = G.summarize(U_, G.HRU + fn, G.INL_CONV)
+        except ModelError as e:
+            ctx.fail("decimal-range-like", "%s/%s" % (config, fn), "%s: %s" % (e.rule, e.what), e.where)
+            continue
+        p1 = S.P(1, body["params"][1]["pat"]["name"])
+        fns.append((fn, second, kind, outs, body, p1))
+    for q in w.qtypes:
+        if q.kind != "ref":
+            continue
+        stats["types"] += 1
+        rows = [(v, q.tables["scale"][v][1]) for v in q.variants_const]
+        smin = min(s for _, s in rows)
+        for (fn, second, kind, outs, body, p1) in fns:
+            if second == "unit":
+                ub, am_b = p1, None
+            else:
+                ub, am_b = T.canon(S.unit(p1)), T.canon(S.amount(p1))
+            sb_t = T.canon(S.scale(ub))
+            worst = None
+            for (u, sa) in rows:
+                for (v, sb) in rows:
+                    ratio = sb / sa
+                    if u != v and not (magn.L <= ratio <= magn.U):
+                        stats["vacuous"] += 1
+                        continue
+                    alo, ahi = max(magn.L / sa, magn.L * smin / sa), min(magn.U / sa, magn.U * smin / sa)
+                    blo, bhi = max(magn.L / sb, magn.L * smin / sb), min(magn.U / sb, magn.U * smin / sb)
+                    if kind == "ratio":
+                        # divisor expressed in the dividend's unit, and the dimensionless result, are named magnitudes
+                        blo, bhi = max(blo, magn.L * sa / sb), min(bhi, magn.U * sa / sb)
+                        reg = magn.Region("/", alo, ahi, blo, bhi, magn.L * sb / sa, magn.U * sb / sa)
+                    else:
+                        reg = magn.Region("*", alo, ahi, blo, bhi, Fraction(0), Fraction(10) ** 80)
+                    if not reg.vertices:
+                        stats["vacuous"] += 1
+                        continue
+                    stats["pairs"] += 1
+
+                    def atom_val(at):
+                        at = T.canon(at)
+                        if at[0] == "==" and set(at[1:]) == {ua, ub}:
+                            return u == v
+                        m = {sa_t: sa, sb_t: sb}
+                        if at[0] in ("<", "<=", "==") and at[1] in m and at[2] in m:
+                            x, y = m[at[1]], m[at[2]]
+                            return {"<": x < y, "<=": x <= y, "==": x == y}[at[0]]
+                        return None
+                    sel = []
+                    for (g, k, t) in outs:
+                        vals = [(atom_val(a), p) for a, p in g]
+                        if any(x is None for x, _ in vals):
+                            sel = None
+                            break
+                        if all(x == p for x, p in vals):
+                            sel.append((k, t))
+                    if not sel or len(sel) != 1 or sel[0][0] != "val":
+                        ctx.fail("decimal-range-like", "%s/%s/%s" % (config, q.path, fn), "cannot select the case for units (%s, %s)" % (u, v), body["span"])
+                        worst = "x"
+                        break
+
+                    def leaf(x, sa=sa, sb=sb):
+                        if x == am_a:
+                            return "a"
+                        if am_b is not None and x == am_b:
+                            return "b"
+                        if x == sa_t:
+                            return sa
+                        if x == sb_t:
+                            return sb
+                        return None
+                    for n in magn.arith_nodes(sel[0][1]):
+                        stats["nodes"] += 1
+                        try:
+                            bnd, wit = magn.bound(n, leaf, reg)
+                        except magn.NotMonomial as e:
+                            ctx.fail("decimal-range-like", "%s/%s/%s" % (config, q.path, fn), "cannot bound node %s" % e, body["span"])
+                            continue
+                        lim = magn.THRESH * 2 if n[0] in ("+", "-") else magn.THRESH
+                        if bnd >= lim and (worst is None or (worst != "x" and bnd > worst[0])):
+                            worst = (bnd, n, u, v, wit)
+                if worst == "x":
+                    break
+            if worst == "x":
+                continue
+            inst = "%s/%s/%s" % (config, q.path, fn)
+            if worst is None:
+                ctx.ob("decimal-range-like", inst, True, "", body["span"], nontrivial=False)
+            else:
+                (bnd, n, u, v, wit) = worst
+                ctx.ob("decimal-range-like", inst, False,
+                       "decimal overflow for in-range magnitudes: %s between units (%s, %s): the intermediate %s can reach %.3g (representable: < %.3g) — e.g. amounts %.6g and %.6g"
+                       % (fn, u, v, T.show(n), float(bnd), float(magn.THRESH), float(wit[0]), float(wit[1])), body["span"])
+    ctx.extra["decimal_range_like"] = stats
+    return stats
+
+
 def run(ctx):
     total_bodies = 0
     for config in ("f64-all", "dec-all"):
@@ -368,6 +478,8 @@ def run(ctx):
             st = decimal_range(ctx, config, w)
             ctx.floor("%s: derived operators range-analysed" % config, st["impls"], 34 + 8)
             ctx.floor("%s: unit pairs range-analysed" % config, st["pairs"], 1500)
+            st2 = decimal_range_like(ctx, config, w)
+            ctx.floor("%s: like-quantity (type, unit pair, operation) cases range-analysed" % config, st2["pairs"], 5000)
     ctx.floor("library bodies inventoried", total_bodies, 1500)
     # positive control: the vocabulary must match the known sites
     ctx.ob("positive-control", "vocabulary", bool(PANIC_VOCAB.search("core::option::Option::<T>::unwrap")) and bool(PANIC_VOCAB.search("core::panicking::panic_fmt"))
